@@ -6,6 +6,7 @@
    chained skip over the buffer, final skip + slice). *)
 From Coq Require Import ZArith List Bool Lia.
 From DG Require Import ProtoWireRef CaseFormat ThriftWire ThriftWireProofs ThriftGeneric ThriftGenericProofs.
+From DG Require Import ThriftTyped ThriftTypedProofs ThriftGenericW Check01b ThriftReadOpts ThriftOptionsProofs.
 Import ListNotations.
 Local Open Scope Z_scope.
 
@@ -133,3 +134,130 @@ Example ex_notfound_inner : lookup ex_v 0 [PField 300; PIndex 2; PField 1] = LNo
 Example ex_err_kind : lookup ex_v 0 [PField 1; PIndex 0] = LErr. Proof. vm_compute. reflexivity. Qed.
 Example ex_err_negative : lookup ex_v 0 [PField 300; PIndex (-1)] = LErr. Proof. vm_compute. reflexivity. Qed.
 Example ex_empty_container : lookup ex_v 0 [PField 32767; PIndex 0] = LNotFound. Proof. vm_compute. reflexivity. Qed.
+
+(* ================= typed (descriptor-carrying) access agrees with untyped access =================
+   [vget_by_path] (model/ThriftTyped.v) is Value.GetByPath of thrift/generic/value.go as coded: per step the path kind must
+   fit the wire type and the descriptor type, a field must be defined in the IDL (looked up by id, or by NAME through the
+   struct descriptor's name table), the child descriptor is carried down, the final skip uses the descriptor's type.
+   [resolve d p] is the name-free path p denotes (names replaced by the ids the descriptor gives them) as far as the
+   descriptor resolves it; [typed_spec] says: same result as the untyped access on the resolved path; where the path stops
+   resolving (unknown field id / name, kind that does not fit the descriptor) an error — unless the untyped access of the
+   resolved prefix already failed, then that failure. For every wf value that conforms to the descriptor. *)
+Theorem C01_typed_untyped_agree : forall p d v r off,
+  wf v = true -> (depth v <= max_skip_depth)%nat -> desc_ok d = true -> conforms d v = true ->
+  vget_by_path d (type_of v) (encode v ++ r) off p =
+  typed_spec (resolve d p) (get_by_path (type_of v) (encode v ++ r) off).
+Proof. exact typed_untyped_agree. Qed.
+Print Assumptions C01_typed_untyped_agree.
+
+(* completely resolved path: exactly the untyped result, which is the image of the AST-level lookup *)
+Theorem C01_typed_refines_lookup : forall p d v r off q,
+  wf v = true -> (depth v <= max_skip_depth)%nat -> desc_ok d = true -> conforms d v = true -> resolve d p = (q, true) ->
+  vget_by_path d (type_of v) (encode v ++ r) off p =
+    match lookup v off q with
+    | LFound sub o => GFound (type_of sub) o (o + zlen (encode sub))
+    | LNotFound => GNotFound
+    | LErr => GErr
+    end.
+Proof. exact typed_refines_lookup. Qed.
+Print Assumptions C01_typed_refines_lookup.
+
+(* lookup by field NAME: a declared name behaves exactly as its id; an undeclared name is an error *)
+Theorem C01_name_lookup_iff_declared : forall nm dfs v r off,
+  wf v = true -> (depth v <= max_skip_depth)%nat -> desc_ok (DStruct dfs) = true -> conforms (DStruct dfs) v = true ->
+  vget_by_path (DStruct dfs) (type_of v) (encode v ++ r) off [TName nm] =
+  match fby_name nm dfs with
+  | Some (id, _) => get_by_path (type_of v) (encode v ++ r) off [PField id]
+  | None => GErr
+  end.
+Proof. exact name_lookup_iff_declared. Qed.
+Print Assumptions C01_name_lookup_iff_declared.
+
+Theorem C01_field_by_name_agree : forall nm d v r off,
+  wf v = true -> (depth v <= max_skip_depth)%nat -> desc_ok d = true -> conforms d v = true ->
+  vfield_by_name d (type_of v) (encode v ++ r) off nm = vget_by_path d (type_of v) (encode v ++ r) off [TName nm].
+Proof. exact vfield_by_name_agree. Qed.
+Print Assumptions C01_field_by_name_agree.
+
+(* Value.Field / Index / GetByStr / GetByInt on a declared child = the one-step typed path *)
+Theorem C01_typed_single_step_agree : forall s d v r off us d',
+  wf v = true -> (depth v <= max_skip_depth)%nat -> desc_ok d = true -> conforms d v = true ->
+  (forall nm, s <> TName nm) -> step_desc d s = Some (us, d') ->
+  vsingle d (type_of v) (encode v ++ r) off s = vget_by_path d (type_of v) (encode v ++ r) off [s].
+Proof. exact vsingle_agree. Qed.
+Print Assumptions C01_typed_single_step_agree.
+
+(* the descriptor attached to a typed result is the descriptor of the element found (its type is the element's type) *)
+Theorem C01_attached_descriptor : forall p d v off q sub o,
+  desc_ok d = true -> conforms d v = true -> resolve d p = (q, true) -> lookup v off q = LFound sub o ->
+  exists d', vdesc_by_path d p = Some d' /\ conforms d' sub = true /\ desc_type d' = type_of sub.
+Proof. exact vdesc_conforms. Qed.
+Print Assumptions C01_attached_descriptor.
+
+(* ================= options =================
+   The read APIs consult: UseNativeSkip (Options) and UseNativeSkipForGet (global) — which skip implementation walks over
+   non-matching elements; ClearDirtyValues — whether a bulk lookup first empties the caller's result slots; MapStructById and
+   CastStringAsBinary — presentation of Interface() results; IterateStructByName — the Path kind handed to Value.Foreach's
+   callback (compared by check 104); DisallowUnknow — an extra error in Value.Foreach. *)
+
+(* the search with SkipGo plugged in is the model all other theorems and the checks are about *)
+Theorem C01_param_model_is_model : forall p t bs off, get_by_path_w skip_go t bs off p = get_by_path t bs off p.
+Proof. exact get_by_path_w_skip_go. Qed.
+Print Assumptions C01_param_model_is_model.
+
+(* with ANY skip implementation that honours the skip contract the search returns the image of the lookup ... *)
+Theorem C01_get_by_path_any_skip : forall skp,
+  (forall x r, wf x = true /\ (depth x <= max_skip_depth)%nat -> skp (type_of x) (encode x ++ r) = Some r) ->
+  forall p v r off, wf v = true -> (depth v <= max_skip_depth)%nat ->
+  get_by_path_w skp (type_of v) (encode v ++ r) off p = gres_of_lres (lookup v off p).
+Proof. exact get_by_path_refines_lookup_w. Qed.
+Print Assumptions C01_get_by_path_any_skip.
+
+(* ... hence UseNativeSkip / UseNativeSkipForGet are irrelevant for the result *)
+Theorem C01_options_irrelevant_skip : forall skp1 skp2,
+  (forall x r, wf x = true /\ (depth x <= max_skip_depth)%nat -> skp1 (type_of x) (encode x ++ r) = Some r) ->
+  (forall x r, wf x = true /\ (depth x <= max_skip_depth)%nat -> skp2 (type_of x) (encode x ++ r) = Some r) ->
+  forall p v r off, wf v = true -> (depth v <= max_skip_depth)%nat ->
+  get_by_path_w skp1 (type_of v) (encode v ++ r) off p = get_by_path_w skp2 (type_of v) (encode v ++ r) off p.
+Proof. exact skip_choice_irrelevant. Qed.
+Print Assumptions C01_options_irrelevant_skip.
+
+(* ClearDirtyValues: irrelevant for clean result slots; when set, stale slots never show; bulk = map of single lookups *)
+Theorem C01_options_irrelevant_clear : forall v q, Forall (fun x => snd x = None) q -> bulk_get true v q = bulk_get false v q.
+Proof. exact bulk_get_clear_irrelevant. Qed.
+Print Assumptions C01_options_irrelevant_clear.
+
+Theorem C01_clear_dirty_fresh : forall v q, bulk_get true v q = bulk_get true v (map (fun x => (fst x, None)) q).
+Proof. exact bulk_get_clear_fresh. Qed.
+Print Assumptions C01_clear_dirty_fresh.
+
+(* MapStructById / CastStringAsBinary: the dump check 105 compares is the serialisation of the Go-value AST, and the two
+   options change nothing but the documented presentation (string vs []byte, int vs FieldID keys) *)
+Theorem C01_dump_is_serialised_go_value : forall obin obyid v, gdump obin obyid v = ser (to_ival obin obyid v).
+Proof. exact gdump_ser. Qed.
+Print Assumptions C01_dump_is_serialised_go_value.
+
+Theorem C01_options_presentation_only : forall obin obyid v, forget (to_ival obin obyid v) = to_ival false false v.
+Proof. exact presentation_options_only. Qed.
+Print Assumptions C01_options_presentation_only.
+
+(* ---- non-vacuity: a descriptor for ex_v with names, a typed path by names through list / struct / double-keyed map ---- *)
+Definition ex_d : tdesc :=
+  DStruct [ (300, [108], DList (DStruct [ (1, [109], DMap (DScalar T_DOUBLE) (DScalar T_STRING)); (2, [120], DScalar T_I32) ]));
+            (1, [97], DScalar T_I32);
+            (2, [98], DMap (DScalar T_STRING) (DScalar T_I64));
+            (32767, [122], DSet (DScalar T_BYTE));
+            (5, [117], DScalar T_BOOL) ].                     (* declared, absent in ex_v *)
+Example ex_d_ok : desc_ok ex_d = true. Proof. vm_compute. reflexivity. Qed.
+Example ex_conforms : conforms ex_d ex_v = true. Proof. vm_compute. reflexivity. Qed.
+Example ex_typed_by_name :
+  vget_by_path ex_d T_STRUCT (encode ex_v) 0 [TName [108]; TIndex 0; TName [109]; TBinKey (encode ex_dkey)] = GFound T_STRING 25 31.
+Proof. vm_compute. reflexivity. Qed.
+Example ex_resolve : resolve ex_d [TName [108]; TIndex 0; TName [109]; TBinKey (encode ex_dkey)] =
+  ([PField 300; PIndex 0; PField 1; PBinKey (encode ex_dkey)], true).
+Proof. vm_compute. reflexivity. Qed.
+Example ex_unknown_name : vget_by_path ex_d T_STRUCT (encode ex_v) 0 [TName [113]] = GErr. Proof. vm_compute. reflexivity. Qed.
+Example ex_declared_absent : vget_by_path ex_d T_STRUCT (encode ex_v) 0 [TName [117]] = GNotFound. Proof. vm_compute. reflexivity. Qed.
+Example ex_unknown_after_absent : vget_by_path ex_d T_STRUCT (encode ex_v) 0 [TName [108]; TIndex 7; TName [113]] = GNotFound.
+Proof. vm_compute. reflexivity. Qed.
+Example ex_ival : forget (to_ival true true ex_v) = to_ival false false ex_v. Proof. vm_compute. reflexivity. Qed.
